@@ -56,6 +56,48 @@ from radical.pilot.agent.scheduler.hombre              import Hombre
 from radical.pilot.agent.scheduler.noop                import Noop
 
 
+from radical.pilot.agent.resource_manager import base as rm_base
+
+
+_build_rm_info = R.build_rm_info
+
+
+def build_rm_info_gaps(lay, dead):
+    '''
+    Node list with index gaps, as a pilot with backup nodes gets it: the real Fork RM
+    lists requested + len(dead) nodes, the real ResourceManager._filter_nodes probes
+    them (the ssh probe is replaced: the probes numbered in `dead` fail) and drops the
+    unreachable ones WITHOUT renumbering (indexes [0, 2, 3]).  Everything else as
+    sched_rig.build_rm_info, which does the work.
+    '''
+    dead = sorted(set(int(d) for d in dead))
+    if not dead:
+        return _build_rm_info(lay)
+    probes = []
+
+    class Probe(object):
+        def __init__(self, cmd):
+            self.k, self.stdout, self.stderr, self.retcode = len(probes), '', '', None
+            probes.append(self)
+        def start(self):
+            pass
+        def wait(self, timeout=None):
+            self.retcode = 255 if self.k in dead else 0
+        def cancel(self):
+            pass
+
+    real = R.ForkRM.init_from_scratch
+    def _ifs(self, rm_info):
+        rm_info.backup_nodes = len(dead)
+        return real(self, rm_info)
+
+    with mock.patch.object(R.ForkRM, 'init_from_scratch', _ifs), \
+         mock.patch.object(rm_base, 'Process', Probe):
+        info = _build_rm_info(lay)
+    assert len(probes) == lay.nn + lay.agents + len(dead), len(probes)
+    return info
+
+
 class Raw(list):
     '''slots as the scheduler attached them; projected in log() where the uid is known'''
     def __init__(self, raw):
@@ -114,7 +156,7 @@ class Adapter(object):
                 u = _occ(g) * su
                 assert abs(u - round(u)) < 1e-9, 'gpu share not a whole unit: %r' % (g,)
                 gp.append([_idx(g), int(round(u))])
-            out.append({'node': s['node_index'], 'cores': [_idx(c) for c in s['cores']],
+            out.append({'node': rig.npos(s['node_index']), 'cores': [_idx(c) for c in s['cores']],
                         'gpus': gp, 'lfs': int(s['lfs'] or 0), 'mem': int(s['mem'] or 0)})
         return out
 
@@ -225,7 +267,7 @@ class JsrunAdapter(Adapter):
                 lfs, mem = [int(rs['lfs'] or 0)], [int(rs['mem'] or 0)]
             if self._above(rig.lay, req):
                 # judged set by set: one entry per granted set
-                out.append({'node': rs['node_index'], 'cores': [c for row in cm for c in row],
+                out.append({'node': rig.npos(rs['node_index']), 'cores': [c for row in cm for c in row],
                             'gpus': [[g, su] for g in gl], 'lfs': sum(lfs), 'mem': sum(mem)})
                 continue
             ranks = []
@@ -249,7 +291,7 @@ class JsrunAdapter(Adapter):
                                 gp.append([g, k]); left[g] -= k; need -= k
                         if not need:              # the set holds enough, only not GPU-wise
                             rig.unpackable = True
-                ranks.append({'node': rs['node_index'], 'cores': list(cm[i]), 'gpus': gp,
+                ranks.append({'node': rig.npos(rs['node_index']), 'cores': list(cm[i]), 'gpus': gp,
                               'lfs': lfs[i], 'mem': mem[i]})
             if ranks:
                 for g in gl:
@@ -425,7 +467,7 @@ class HombreAdapter(Adapter):
         if rk is None:
             return Adapter.proj_slots(self, rig, uid, slots)
         su = rig.lay.su
-        return [{'node': r['index'], 'cores': list(r['cores']),
+        return [{'node': rig.npos(r['index']), 'cores': list(r['cores']),
                  'gpus': [[g, su] for g in r['gpus']], 'lfs': 0, 'mem': 0} for r in rk]
 
     @staticmethod
@@ -459,6 +501,9 @@ class HombreAdapter(Adapter):
     def classify(self, trace, clause):
         if self.raised(trace, 'AttributeError'):
             return '%s: chunk not understood by the base class _change_slot_states' % self.name
+        if self.raised(trace, 'RuntimeError: configuration cannot be used') and \
+                trace.get('node_index') != list(range(len(trace.get('node_index') or []))):
+            return '%s: node list with index gaps (chunks are cut by list position taken for node index)' % self.name
         return Adapter.classify(self, trace, clause)
 
 
@@ -487,15 +532,19 @@ class NoopAdapter(Adapter):
 class VariantRig(R.SchedRig):
 
     def __init__(self, adapter, lay, task_shapes, mon_shapes, extra, scattered=True,
-                 seed=0, script=None, p_env=0.35, cancelable=None, max_points=4000):
+                 seed=0, script=None, p_env=0.35, cancelable=None, max_points=4000, dead=()):
         self.adapter     = adapter
         self.extra       = extra
         self.task_shapes = task_shapes
         self.unpackable  = False
         self.tmpdir      = None
-        R.SchedRig.__init__(self, lay, mon_shapes, scattered=scattered, seed=seed,
-                            script=script, p_env=p_env, cancelable=cancelable,
-                            max_points=max_points, cls=adapter.cls)
+        self.dead        = tuple(dead or ())
+        # sched_rig builds the node list in __init__ (no parameter for it): swap the builder
+        with mock.patch.object(R, 'build_rm_info', lambda l: build_rm_info_gaps(l, self.dead)):
+            R.SchedRig.__init__(self, lay, mon_shapes, scattered=scattered, seed=seed,
+                                script=script, p_env=p_env, cancelable=cancelable,
+                                max_points=max_points, cls=adapter.cls)
+        assert len(self.info.node_list) == lay.nn, self.info.node_list
         # the application's requests (the monitor judges self.shapes)
         self.tasks = {uid: self._task(uid, sh) for uid, sh in task_shapes.items()}
 
@@ -510,6 +559,16 @@ class VariantRig(R.SchedRig):
         c = R.SchedRig._make(self, cls, who)
         self.adapter.post_make(self, c, who)
         return c
+
+    def npos(self, index):
+        '''the monitor numbers the nodes 0 .. NNodes-1 by their position in the node list;
+           slots name nodes by their 'index' (the two differ once the RM dropped a node).
+           An index no node has lies outside the monitor's Node set (C02.NodeExists /
+           C01.OnlyNodes).'''
+        for i, n in enumerate(self.info.node_list):
+            if n['index'] == index:
+                return i
+        return self.lay.nn + (index if isinstance(index, int) and index >= 0 else 0)
 
     def _task(self, uid, sh):
         t  = R.SchedRig._task(self, uid, sh)
@@ -569,6 +628,7 @@ class VariantRig(R.SchedRig):
         # T.scattered: asked for only where Fits describes what the class can place
         tr['scattered'] = bool(self.scattered and self.adapter.quiet_ok(self.lay, self.shapes))
         tr['sched']     = self.adapter.name
+        tr['node_index'] = [int(n['index']) for n in self.info.node_list]   # position -> index
         tr['order']     = self.extra.get('order') or \
                           {u: {'ns': 'none', 'order': 0, 'size': 0} for u in self.shapes}
         tr['bag']       = self.extra.get('bag') or \
